@@ -1007,7 +1007,8 @@ def refresh_blocks(F, E, B, roots, depth=0):
                     G = F.__dict__["_gates_cache"] = Gates(F)
                 edges = gate_cuts(F, G, CB, E).get(1, set())
                 rets = [i for i, x in enumerate(cb["blocks"]) if x["term"]["k"] == "return"]
-                if (inner or edges) and rets and not any(reachable_without(CB, edges, inner, r) for r in rets):
+                # (a return that ends the very block holding the fresh assignment has passed it)
+                if (inner or edges) and rets and not any(r not in inner and reachable_without(CB, edges, inner, r) for r in rets):
                     out.add(bi)
     return out
 
